@@ -150,6 +150,36 @@ impl<'tcx> Cx<'tcx> {
                         }
                     }
                 }
+                // `const X: [u32; N] = [..]` (any integer element type) used by value: the element values
+                if let ty::Array(et, n) = ty.kind() {
+                    let esz = match et.kind() {
+                        ty::Uint(u) => u.bit_width().map(|w| w / 8).or(Some(8)),
+                        ty::Int(i) => i.bit_width().map(|w| w / 8).or(Some(8)),
+                        _ => None,
+                    };
+                    if let (Some(esz), Some(n)) = (esz, n.try_to_target_usize(tcx)) {
+                        let esz = esz as usize;
+                        if esz > 1 && esz <= 8 && n <= 4096 {
+                            if let rustc_middle::mir::interpret::GlobalAlloc::Memory(a) = tcx.global_alloc(alloc_id) {
+                                let a = a.inner();
+                                let off = offset.bytes() as usize;
+                                let tot = esz * n as usize;
+                                if a.len() >= off + tot {
+                                    let b = a.inspect_with_uninit_and_ptr_outside_interpreter(off..off + tot);
+                                    let mut vals: Vec<String> = Vec::new();
+                                    for k in 0..n as usize {
+                                        let mut v: u64 = 0;
+                                        for j in 0..esz {
+                                            v |= (b[k * esz + j] as u64) << (8 * j);
+                                        }
+                                        vals.push(format!("{}", v));
+                                    }
+                                    parts.push(format!("\"ints\":[{}],\"ety\":{}", vals.join(","), esc(&format!("{:?}", et))));
+                                }
+                            }
+                        }
+                    }
+                }
                 // `const X: &[u8] = b"..."`: a fat pointer stored in memory
                 if let ty::Ref(_, inner, _) = ty.kind() {
                     let is_bytes = matches!(inner.kind(), ty::Slice(e) if *e == tcx.types.u8) || inner.is_str();
